@@ -4,6 +4,7 @@ import os
 
 from facts import AnalysisBroken, VERIF
 import contracts
+import guards
 import keyrule
 import wire
 
@@ -61,12 +62,26 @@ def run(ck, F):
             w.get('when') == p.get('when') and w.get('throws') == p.get('throws') and ('accessors' in w) == ('accessors' in p)
             and w.get('result') == p.get('result')
             for w, p in zip(want, paths))
-        ck.check(R_paths, sid, same_shape,
-                 f'{fid}: outcomes changed: {[(p.get("when", "")[:60], p.get("throws") or p.get("result") or "node") for p in paths]} '
-                 f'vs confirmed {[(p.get("when", "")[:60], p.get("throws") or p.get("result") or "node") for p in want]}',
-                 loc=f['loc'], fn=fid)
         if not same_shape:
+            # the tests may have been restructured: compare what is selected for every valuation of the atomic conditions
+            sig = lambda p: json.dumps({k: v for k, v in p.items() if k not in ('when', 'stored_params')}, sort_keys=True)
+            eq, wit = guards.equivalent([(p.get('when', ''), sig(p)) for p in want], [(p.get('when', ''), sig(p)) for p in paths])
+            if eq:
+                ck.ok(R_paths, sid, detail='guards restructured, same outcome for every valuation of the atomic conditions')
+                for i, p in enumerate(paths):
+                    for acc in sorted(p.get('accessors', {})):
+                        ck.ok(R_tab, f'{sid}#{i}::{acc}')
+                continue
+            what = (f'under {[(k[:70], v) for k, v in wit["valuation"].items()]} the confirmed outcome is '
+                    f'{(json.loads(wit["confirmed"]).get("throws") or json.loads(wit["confirmed"]).get("result") or "a node") if wit["confirmed"] else "none"} '
+                    f'and the current one is {(json.loads(wit["now"]).get("throws") or json.loads(wit["now"]).get("result") or "a node (different contract)") if wit["now"] else "none"}') \
+                if eq is False else f'not comparable by truth table ({wit})'
+            ck.fail(R_paths, sid,
+                    f'{fid}: outcomes changed: {[(p.get("when", "")[:60], p.get("throws") or p.get("result") or "node") for p in paths]} '
+                    f'vs confirmed {[(p.get("when", "")[:60], p.get("throws") or p.get("result") or "node") for p in want]}; {what}',
+                    loc=f['loc'], fn=fid)
             continue
+        ck.ok(R_paths, sid)
         for i, (w, p) in enumerate(zip(want, paths)):
             if 'accessors' not in w:
                 continue
